@@ -42,6 +42,14 @@ func (s *Server) VerifSelect(ctx context.Context, w io.Writer, parsed kafsql.Que
 	return err
 }
 
+// VerifSelectCached runs the real handleSelectWithCache (result-cache lookup, handleSelect with a
+// row collector on a miss, store on success) for an already parsed query whose text is queryText.
+func (s *Server) VerifSelectCached(ctx context.Context, w io.Writer, parsed kafsql.Query, queryText string) error {
+	backend := pgproto3.NewBackend(pgproto3.NewChunkReader(emptyReader{}), w)
+	_, _, err := s.handleSelectWithCache(ctx, backend, parsed, queryText)
+	return err
+}
+
 // VerifFilterSegments exposes filterSegments.
 func VerifFilterSegments(parsed kafsql.Query, segments []discovery.SegmentRef, timeMin, timeMax *int64) []discovery.SegmentRef {
 	return filterSegments(parsed, segments, timeMin, timeMax)
